@@ -1,0 +1,85 @@
+//go:build verif
+
+// Contracts for package cdi, read by the gocv verification-condition
+// generator in /verif. This file contains comments only: it adds no code
+// to any build. Syntax: see /verif/DESIGN.md section 2.2.
+
+package cdi
+
+// ---------------------------------------------------------------- annotations.go (C15)
+
+//@ pred K8sName(n string) = 1 <= len(n) && len(n) <= 63 && alnum(n[0]) && alnum(n[len(n)-1]) &&
+//@        forall(i, 0 <= i && i < len(n), vcChar(n[i]))
+//@ pred CDIKey(k string) = len(k) >= 11 && k[0] == 'c' && k[1] == 'd' && k[2] == 'i' && k[3] == '.' && k[4] == 'k' &&
+//@        k[5] == '8' && k[6] == 's' && k[7] == '.' && k[8] == 'i' && k[9] == 'o' && k[10] == '/'
+//@ pred K8sKey(k string) = CDIKey(k) && K8sName(k[11:])
+//@ pred Qualified(d string) = exists(v, string, true, exists(c, string, true, exists(n, string, true,
+//@        VCName(v) && VCName(c) && DevName(n) && d == v + "/" + c + "=" + n)))
+
+//@ fn keyName(p string, id string) = p + "_" + ReplaceAll(id, "/", "_")
+//@ func AnnotationKey(pluginName, deviceID string) (key string, err error)
+//@   pure
+//@   deterministic
+//@   ensures[C15] iff(err == nil, pluginName != "" && deviceID != "" && K8sName(keyName(pluginName, deviceID)))
+//@   ensures[C15] implies(err != nil, key == "")
+//@   ensures[C15] implies(err == nil, key == "cdi.k8s.io/" + keyName(pluginName, deviceID))
+//@   ensures[C15] implies(err == nil, K8sKey(key) && noByte(key[11:], '/'))
+//@   loop 1 invariant forall(k, 1 <= k && k <= #pos, vcChar(keyName(pluginName, deviceID)[k]))
+
+//@ func AnnotationValue(devices []string) (value string, err error)
+//@   pure
+//@   ensures[C15] iff(err == nil, forall(i, 0 <= i && i < len(devices), succeeds(ParseQualifiedName, devices[i])))
+//@   ensures[C15] implies(err != nil, value == "")
+//@   ensures[C15] implies(err == nil && len(devices) == 0, value == "")
+//@   ensures[C15] implies(err == nil && len(devices) > 0, commaPieces(value) == len(devices) &&
+//@                        forall(i, 0 <= i && i < len(devices), piece(value, i) == devices[i]))
+//@   loop 1 invariant forall(j, 0 <= j && j < #i, succeeds(ParseQualifiedName, devices[j]))
+//@   loop 1 invariant implies(#i == 0, value == "" && sep == "")
+//@   loop 1 invariant implies(#i > 0, len(sep) == 1 && sep[0] == ',' && commaPieces(value) == #i &&
+//@                        forall(j, 0 <= j && j < #i, piece(value, j) == devices[j]))
+
+//@ func UpdateAnnotations(annotations map[string]string, plugin string, deviceID string, devices []string) (r map[string]string, err error)
+//@   modifies *annotations
+//@   frametags C15
+//@   ensures[C15] implies(err != nil, r == annotations)
+//@   ensures[C15] implies(err != nil, forall(k, string, true, has(r, k) == old(has(annotations, k)) && r[k] == old(annotations[k])))
+//@   ensures[C15] implies(err == nil, K8sKey(AnnotationKey(plugin, deviceID)) &&
+//@                        !old(has(annotations, AnnotationKey(plugin, deviceID))) && has(r, AnnotationKey(plugin, deviceID)))
+//@   ensures[C15] implies(err == nil, forall(k, string, k != AnnotationKey(plugin, deviceID),
+//@                        has(r, k) == old(has(annotations, k)) && r[k] == old(annotations[k])))
+//@   ensures[C15] implies(err == nil, forall(i, 0 <= i && i < len(devices), succeeds(ParseQualifiedName, devices[i])))
+//@   ensures[C15] implies(err == nil && len(devices) > 0,
+//@                        commaPieces(r[AnnotationKey(plugin, deviceID)]) == len(devices) &&
+//@                        forall(i, 0 <= i && i < len(devices), piece(r[AnnotationKey(plugin, deviceID)], i) == devices[i]))
+//@   ensures[C15] implies(err == nil && annotations != nil, r == annotations)
+//@   ensures[C15] implies(err == nil && annotations == nil, fresh(r))
+
+//@ func ParseAnnotations(annotations map[string]string) (keys []string, devices []string, err error)
+//@   pure
+//@   ensures[C15] implies(err != nil, len(keys) == 0 && len(devices) == 0)
+//@   ensures[C15] implies(err == nil, forall(j, 0 <= j && j < len(devices), IsQualifiedName(devices[j])))
+//@   ensures[C15] implies(err == nil, forall(j, 0 <= j && j < len(keys), has(annotations, keys[j]) && CDIKey(keys[j])))
+//@   ensures[C15] implies(err == nil, forall(k, string, has(annotations, k) && CDIKey(k),
+//@                        exists(j, 0 <= j && j < len(keys), keys[j] == k)))
+//@   ensures[C15] implies(err == nil && len(keys) == 1,
+//@                        len(devices) == commaPieces(annotations[keys[0]]) &&
+//@                        forall(t, 0 <= t && t < len(devices), devices[t] == piece(annotations[keys[0]], t)))
+//@   loop 1 invariant base(keys) == 0 || fresh(keys)
+//@   loop 1 invariant base(devices) == 0 || fresh(devices)
+//@   loop 1 invariant base(keys) == 0 || base(keys) != base(devices)
+//@   loop 1 invariant forall(j, 0 <= j && j < len(keys), has(#seen, keys[j]) && has(annotations, keys[j]) && CDIKey(keys[j]))
+//@   loop 2 invariant base(keys) == 0 || fresh(keys)
+//@   loop 2 invariant base(devices) == 0 || fresh(devices)
+//@   loop 2 invariant base(keys) == 0 || base(keys) != base(devices)
+//@   loop 2 invariant len(devices) == len(#in_devices) + #i
+//@   loop 2 invariant forall(j, 0 <= j && j < len(keys), keys[j] == atloop(keys[j]))
+//@   loop 1 invariant forall(k, string, has(#seen, k) && CDIKey(k), exists(j, 0 <= j && j < len(keys), keys[j] == k))
+//@   loop 1 invariant forall(j, 0 <= j && j < len(devices), IsQualifiedName(devices[j]))
+//@   loop 1 invariant implies(len(keys) == 0, len(devices) == 0)
+//@   loop 1 invariant implies(len(keys) == 1, len(devices) == commaPieces(annotations[keys[0]]) &&
+//@                        forall(t, 0 <= t && t < len(devices), devices[t] == piece(annotations[keys[0]], t)))
+//@   loop 2 invariant forall(j, 0 <= j && j < len(#in_devices), devices[j] == atloop(#in_devices[j]))
+//@   loop 2 invariant forall(m, len(#in_devices) <= m && m < len(devices), trig(devices[m], devices[m] == piece(value, m - len(#in_devices))))
+//@   loop 2 invariant forall(j, 0 <= j && j < len(devices), IsQualifiedName(devices[j]))
+//@   loop 2 invariant base(#slice) != base(devices) && base(#slice) != base(keys)
+//@   loop 2 invariant forall(i, 0 <= i && i < len(#slice), trig(#slice[i], #slice[i] == atloop(#slice[i])))
